@@ -214,6 +214,16 @@ class Interp:
             return
         if isinstance(t, (ast.Tuple, ast.List)):
             vs = list(v)
+            star = [i for i, e in enumerate(t.elts) if isinstance(e, ast.Starred)]
+            if len(star) == 1 and len(vs) >= len(t.elts) - 1:       # head, *rest = xs
+                i = star[0]
+                tail = len(t.elts) - i - 1
+                for e, x in zip(t.elts[:i], vs[:i]):
+                    self.store(e, x)
+                self.store(t.elts[i].value, vs[i:len(vs) - tail])
+                for e, x in zip(t.elts[i + 1:], vs[len(vs) - tail:]):
+                    self.store(e, x)
+                return
             if len(vs) != len(t.elts):
                 raise Unsupported('unpack arity')
             for e, x in zip(t.elts, vs):
